@@ -207,7 +207,7 @@ static int sim_hook_body(const SutView* v, SutAction* out) {
 	HookEv e;
 	e.method = v->method; e.cls = v->cls; e.inj = v->inj; e.flavour = v->flavour; e.step = v->step; e.state_id = v->state_id;
 	e.ev_type = v->event_type; e.ev_value = v->event_value; e.ev_addr = v->event_addr;
-	e.self = v->self; e.ctx_a = v->ctx_a; e.ctx_b = v->ctx_b; e.ctx_tag = v->ctx_tag;
+	e.self = v->self; e.self_hits = v->self_hits; e.ctx_a = v->ctx_a; e.ctx_b = v->ctx_b; e.ctx_tag = v->ctx_tag;
 	e.request = v->request; e.pending = v->pending; e.current = v->current; e.previous = v->previous;
 	e.has_pending = v->has_pending; e.has_current = v->has_current; e.has_previous = v->has_previous;
 	memcpy(e.active, v->active, 32); e.active_tmpl_ok = v->active_tmpl_ok;
@@ -337,7 +337,7 @@ static void run_simple(int idx, int kind, const Op* op, int op_index);
 // an instance must show from outside exactly what it showed after the last operation performed on *it*
 static void check_untouched(Node& n, int idx, const Obs& now, int op_index) {
 	const uint64_t h = obs_hash(now);
-	if (n.last_obs_set && n.last_obs != h) {
+	if (n.role != ROLE_ZOMBIE && n.last_obs_set && n.last_obs != h) {
 		Violation v; v.prop = "C17"; v.clause = "instances-independent"; v.op_index = op_index; v.node = idx;
 		v.msg = "the observable state of an instance changed although no operation was performed on it (operations on a copy or on its original leaked)";
 		W.rr->violations.push_back(v);
@@ -352,8 +352,10 @@ static void drain(int idx, int op_index) {
 static void teardown(int idx, int op_index) {
 	Node& n = W.nodes[idx];
 	if (!n.alive) return;
-	drain(idx, op_index);
-	if (g_info->manual && n.T.active) run_simple(idx, OP_EXIT, 0, op_index);
+	if (n.role != ROLE_ZOMBIE) {
+		drain(idx, op_index);
+		if (g_info->manual && n.T.active) run_simple(idx, OP_EXIT, 0, op_index);
+	}
 	run_simple(idx, OPX_DESTROY, 0, op_index);
 	W.slot_used[n.slot] = false; dirty_slot(n.slot);
 }
@@ -397,7 +399,7 @@ static void run_simple(int idx, int kind, const Op* op, int op_index) {
 	if (!ok) return;
 	if (kind == OP_EXIT && T.slot.has) { drain(idx, op_index); observe(n, x.before); begin_ctx(n, idx, x, op, false); }
 	x.executed = true;
-	if (kind == OP_CHANGE_TO || kind == OP_CHANGE_WITH || kind == OP_IMM_CHANGE_TO || kind == OP_IMM_CHANGE_WITH || kind == OP_PLAN_APPEND || kind == OP_PLAN_APPEND_WITH || kind == OP_PLAN_FILL || kind == OP_SUCCEED || kind == OP_FAIL) {
+	if (kind == OP_CHANGE_TO || kind == OP_CHANGE_WITH || kind == OP_IMM_CHANGE_TO || kind == OP_IMM_CHANGE_WITH || kind == OP_PLAN_APPEND || kind == OP_PLAN_APPEND_WITH || kind == OP_PLAN_FILL || kind == OP_SUCCEED || kind == OP_FAIL || (kind == OP_REPLAY_TRANSITION && x.a != SUT_INVALID)) {
 		// c bit0 / bit1: argument a / b names the currently active state
 		if ((x.c & 1) && T.open >= 0) x.a = T.open;
 		if ((x.c & 2) && T.open >= 0) x.b = T.open;
@@ -549,10 +551,18 @@ RunResult execute_case(const Case& c, const ExecMode& mode) {
 			observe(an, x.before);
 			begin_ctx(fn, static_cast<int>(W.nodes.size()) - 1, x, 0, false);
 			paint_stack(W.fill_kind, W.fill_seed ^ i);
-			g_in_sut = 1; fn.inst = sut_copy(slot_mem(s), an.inst); g_in_sut = 0;
+			// b bit0: move-construct instead (the moved-from original stays a valid, active object)
+			g_in_sut = 1; fn.inst = (op.b & 1) ? sut_move(slot_mem(s), an.inst) : sut_copy(slot_mem(s), an.inst); g_in_sut = 0;
+			if (op.b & 1) g_stats.hit("moves");
+			const bool moved = (op.b & 1) != 0;
 			fn.alive = true; x.executed = true;
 			finish_op(fn, static_cast<int>(W.nodes.size()) - 1, x);
 			nontrivial("copies");
+			if (moved) {
+				// the moved-to instance carries on as the authority; the moved-from object is only destroyed at the end
+				Node tmp = W.nodes[0]; W.nodes[0] = W.nodes.back(); W.nodes.back() = tmp;
+				W.nodes[0].role = ROLE_AUTH; W.nodes.back().role = ROLE_ZOMBIE; W.nodes.back().T.prev_known = false;
+			}
 			break; }
 		case OP_CRASH_RESTART: {
 			if (!g_info->f_serial || W.snaps.empty() || c.replicas || !a.alive) break;
